@@ -31,6 +31,13 @@ type SchedTarget struct {
 	Deps  []string `json:"deps,omitempty"` // labels
 	Fail  bool     `json:"fail,omitempty"`
 	Sleep string   `json:"sleep,omitempty"`
+	// named tools / require-provide (the scheduler must treat a tool like any other dependency): ToolDeps is the subset of
+	// Deps that is declared as tools = {"mytool": [...]} instead of srcs
+	ToolDeps []string          `json:"tool_deps,omitempty"`
+	Requires []string          `json:"requires,omitempty"`
+	Provides map[string]string `json:"provides,omitempty"`
+	Binary   bool              `json:"binary,omitempty"`
+	SrcFile  string            `json:"src_file,omitempty"` // a source file in the package (content "v1"; "v2" after the edit of an "edittool" case)
 }
 
 func (t *SchedTarget) Label() string { return "//" + t.Pkg + ":" + t.Name }
@@ -43,7 +50,8 @@ type SchedCase struct {
 	Requested []string          `json:"requested"`         // labels on the command line
 	KeepGoing bool              `json:"keep_going"`
 	Threads   int               `json:"threads"`
-	Second    string            `json:"second,omitempty"`  // "" | "rebuild": observe a second invocation on the built tree
+	Second    string            `json:"second,omitempty"`  // "" | "rebuild": observe a second invocation on the built tree | "edittool": build First, edit the source files, observe the build of Requested
+	First     []string          `json:"first,omitempty"`   // labels requested by the first invocation of an "edittool" case
 }
 
 type SchedEvent struct {
@@ -143,8 +151,37 @@ func (c *SchedCase) WriteSched(r *Repo) {
 				continue
 			}
 			fmt.Fprintf(&b, "genrule(\n    name = %s,\n", pyStr(t.Name))
-			if len(t.Deps) > 0 {
-				fmt.Fprintf(&b, "    srcs = %s,\n", pyList(t.Deps))
+			isTool := map[string]bool{}
+			for _, d := range t.ToolDeps {
+				isTool[d] = true
+			}
+			srcs := []string{}
+			if t.SrcFile != "" {
+				srcs = append(srcs, t.SrcFile)
+			}
+			for _, d := range t.Deps {
+				if !isTool[d] {
+					srcs = append(srcs, d)
+				}
+			}
+			if len(srcs) > 0 {
+				fmt.Fprintf(&b, "    srcs = %s,\n", pyList(srcs))
+			}
+			if len(t.ToolDeps) > 0 {
+				fmt.Fprintf(&b, "    tools = {\"mytool\": %s},\n", pyList(t.ToolDeps))
+			}
+			if len(t.Requires) > 0 {
+				fmt.Fprintf(&b, "    requires = %s,\n", pyList(t.Requires))
+			}
+			if len(t.Provides) > 0 {
+				parts := []string{}
+				for _, k := range lib.SortedKeys(t.Provides) {
+					parts = append(parts, pyStr(k)+": "+pyStr(t.Provides[k]))
+				}
+				fmt.Fprintf(&b, "    provides = {%s},\n", strings.Join(parts, ", "))
+			}
+			if t.Binary {
+				b.WriteString("    binary = True,\n")
 			}
 			fmt.Fprintf(&b, "    outs = [%s],\n    cmd = %s,\n    visibility = [\"PUBLIC\"],\n)\n\n", pyStr(t.Name+".out"), pyStr(schedCmd(t, r.LogPath)))
 		}
@@ -153,6 +190,11 @@ func (c *SchedCase) WriteSched(r *Repo) {
 		}
 		must(os.MkdirAll(filepath.Join(r.Dir, p), 0o755))
 		must(os.WriteFile(filepath.Join(r.Dir, p, "BUILD"), []byte(b.String()), 0o644))
+		for _, t := range c.Targets {
+			if t.Pkg == p && t.SrcFile != "" {
+				must(os.WriteFile(filepath.Join(r.Dir, p, t.SrcFile), []byte("v1\n"), 0o644))
+			}
+		}
 	}
 }
 
@@ -206,6 +248,18 @@ func (c *SchedCase) RunSched(base string, bound time.Duration) SchedObs {
 		r.Run(bound+10*time.Second, args...)
 		os.Remove(tracePath)
 	}
+	if c.Second == "edittool" {
+		first := []string{"build"}
+		if c.KeepGoing {
+			first = append(first, "--keep_going")
+		}
+		r.Run(bound+10*time.Second, append(first, c.First...)...)
+		for _, t := range c.Targets {
+			if t.SrcFile != "" {
+				must(os.WriteFile(filepath.Join(r.Dir, t.Pkg, t.SrcFile), []byte("v2\n"), 0o644))
+			}
+		}
+	}
 	kill := bound + 5*time.Second
 	if v := os.Getenv("VERIF_SCHED_KILL_S"); v != "" {
 		if n, err := time.ParseDuration(v + "s"); err == nil {
@@ -235,7 +289,8 @@ func (c *SchedCase) RunSched(base string, bound time.Duration) SchedObs {
 // generator
 
 type SchedOpts struct {
-	Kind      string // none | fail | syntax | runtime | undefined | missingpkg | cycle1 | cycle2 | cycle3 | hang | wide
+	Kind      string // none | fail | syntax | runtime | undefined | undefchain | missingpkg | cycle1 | cycle2 | cycle3 | hang | wide | namedtool
+	ForceKG   int    // 0: random, 1: --keep_going, 2: without
 	Second    string
 	MaxTarget int
 }
@@ -247,6 +302,12 @@ func sleepOf(r *lib.Rng) string {
 // GenSched generates one case. Labels: packages p0..p3, targets t00..; dependencies point to lower-numbered targets,
 // so the base graph is a DAG.
 func GenSched(r *lib.Rng, o SchedOpts) *SchedCase {
+	if o.Kind == "namedtool" {
+		return genNamedTool(r, o)
+	}
+	if o.Kind == "undefchain" {
+		return genUndefChain(r, o)
+	}
 	c := &SchedCase{Kind: o.Kind, Broken: map[string]string{}, Second: o.Second}
 	c.Threads = []int{1, 2, 16}[r.Intn(3)]
 	c.KeepGoing = r.Bool()
@@ -380,6 +441,62 @@ func GenSched(r *lib.Rng, o SchedOpts) *SchedCase {
 		sort.Strings(t.Deps)
 	}
 	c.Requested = lib.SortedKeys(req)
+	lib.Shuffle(r, c.Requested)
+	return c
+}
+
+// genUndefChain: one package; a chain t00 <- t01 <- ... whose last target is requested together with an independent one;
+// one target of the chain (not the last) also depends on //p0:nosuch, which the already loaded package does not declare.
+// The error is found by queueTargetAsync (asyncError), and the dependents of the broken target are waiting for it.
+func genUndefChain(r *lib.Rng, o SchedOpts) *SchedCase {
+	c := &SchedCase{Kind: o.Kind, Shape: "chain", Broken: map[string]string{}, Threads: []int{1, 2, 16}[r.Intn(3)], KeepGoing: r.Bool()}
+	if o.ForceKG != 0 {
+		c.KeepGoing = o.ForceKG == 1
+	}
+	n := r.Range(3, 6)
+	for i := 0; i < n; i++ {
+		t := &SchedTarget{Pkg: "p0", Name: fmt.Sprintf("t%02d", i), Sleep: sleepOf(r)}
+		if i > 0 {
+			t.Deps = []string{c.Targets[i-1].Label()}
+		}
+		c.Targets = append(c.Targets, t)
+	}
+	victim := c.Targets[r.Intn(n-1)]
+	victim.Deps = append(victim.Deps, "//p0:nosuch")
+	other := &SchedTarget{Pkg: "p0", Name: "z00", Sleep: sleepOf(r)}
+	c.Targets = append(c.Targets, other)
+	for _, t := range c.Targets {
+		sort.Strings(t.Deps)
+	}
+	c.Requested = []string{c.Targets[n-1].Label(), other.Label()}
+	lib.Shuffle(r, c.Requested)
+	return c
+}
+
+// genNamedTool: x uses tool as a NAMED tool and requires "k"; tool provides {"k": tf}. Because tool is a tool of x the
+// provide does not apply: x depends on tool itself and must wait for it. First invocation builds tool only; then tool's
+// source file is edited; the observed invocation builds x (and things on top of it) and tool: x must not start before
+// the rebuilt tool has finished.
+func genNamedTool(r *lib.Rng, o SchedOpts) *SchedCase {
+	c := &SchedCase{Kind: o.Kind, Shape: "tool", Broken: map[string]string{}, Threads: []int{2, 16}[r.Intn(2)], KeepGoing: r.Bool(), Second: "edittool"}
+	pkg := "p0"
+	tf := &SchedTarget{Pkg: pkg, Name: "t00"}
+	tool := &SchedTarget{Pkg: pkg, Name: "t01", SrcFile: "version.txt", Binary: true, Sleep: []string{"0.4", "0.6", "0.8"}[r.Intn(3)],
+		Provides: map[string]string{"k": tf.Label()}}
+	x := &SchedTarget{Pkg: pkg, Name: "t02", Deps: []string{tool.Label()}, ToolDeps: []string{tool.Label()}, Requires: []string{"k"}}
+	c.Targets = []*SchedTarget{tf, tool, x}
+	top := x
+	for i := 0; i < r.Intn(3); i++ {
+		u := &SchedTarget{Pkg: pkg, Name: fmt.Sprintf("t%02d", 3+i), Deps: []string{top.Label()}, Sleep: sleepOf(r)}
+		if r.Bool() {
+			u.Deps = append(u.Deps, tf.Label())
+			sort.Strings(u.Deps)
+		}
+		c.Targets = append(c.Targets, u)
+		top = u
+	}
+	c.First = []string{tool.Label()}
+	c.Requested = []string{top.Label(), tool.Label()}
 	lib.Shuffle(r, c.Requested)
 	return c
 }
@@ -657,6 +774,12 @@ func SchedOracle(c *SchedCase, obs *SchedObs) []SchedFinding {
 	// --- the action log
 	started, ended, failedCmd := map[string]int{}, map[string]int{}, map[string]int{}
 	pos := map[string]int{} // position of the E line
+	startsInLog := map[string]bool{}
+	for _, line := range obs.Log {
+		if f := strings.Fields(line); len(f) == 2 && f[0] == "S" {
+			startsInLog[f[1]] = true
+		}
+	}
 	for i, line := range obs.Log {
 		f := strings.Fields(line)
 		if len(f) != 2 {
@@ -671,6 +794,9 @@ func SchedOracle(c *SchedCase, obs *SchedObs) []SchedFinding {
 				continue
 			}
 			for _, d := range t.Deps {
+				if c.Second != "" && !startsInLog[d] && bad[d] == "" {
+					continue // a later invocation: the dependency was up to date and did not run at all
+				}
 				if _, done := pos[d]; !done {
 					if failedCmd[d] > 0 || bad[d] != "" {
 						add("C05", "ran-after-failed-dependency", "%s started although its dependency %s cannot be built (%s)", f[1], d, bad[d])
@@ -875,18 +1001,24 @@ func RunSchedProperty(c *lib.Ctx, prop string) {
 			{"none", 18, 400, ""}, {"none", 3, 60, "rebuild"}, {"fail", 16, 400, ""}, {"wide", 12, 400, ""},
 			{"syntax", 5, 80, ""}, {"runtime", 5, 80, ""}, {"undefined", 6, 80, ""}, {"missingpkg", 5, 80, ""},
 			{"cycle1", 1, 6, ""}, {"cycle2", 1, 6, ""}, {"cycle3", 1, 6, ""}, {"hang", 1, 2, ""},
+			{"undefchain", 4, 60, ""}, {"namedtool", 1, 20, "edittool"},
 		}
 		if prop == "C04" { // C04 concentrates on successful and partially failing builds, C05 on failures
 			plan[0].quick, plan[2].quick, plan[3].quick = 26, 16, 12
 			plan[4].quick, plan[5].quick, plan[6].quick, plan[7].quick = 2, 2, 3, 2
 			plan[8].quick, plan[9].quick, plan[10].quick, plan[11].quick = 0, 1, 0, 0
 			plan[11].thor = 0
+			plan[12].quick, plan[13].quick = 2, 3
 		} else {
 			plan[0].quick, plan[3].quick = 6, 16
 		}
 		for _, p := range plan {
 			for i := 0; i < c.Scale(p.quick, p.thor); i++ {
-				cases = append(cases, GenSched(c.Rng.Fork(), SchedOpts{Kind: p.kind, Second: p.second}))
+				kg := 0
+				if p.kind == "undefchain" { // alternate: with --keep_going, without
+					kg = 1 + i%2
+				}
+				cases = append(cases, GenSched(c.Rng.Fork(), SchedOpts{Kind: p.kind, Second: p.second, ForceKG: kg}))
 			}
 		}
 	}
